@@ -62,6 +62,9 @@ func genHistCtx(rt *rapid.T) *HistCtx {
 	h := &HistCtx{Ctx: histContexts[rapid.IntRange(0, len(histContexts)-1).Draw(rt, "ctx")]}
 	if h.Ctx == "SB" || h.Ctx == "MB" || h.Ctx == "SBBytes" || h.Ctx == "PrintSB" {
 		oc.mb = rapid.Bool().Draw(rt, "mbops")
+		// read-only accessors between the writes (they finalize a copy; what
+		// is pending in the buffer itself must still be escaped and split)
+		oc.accessors = rapid.Bool().Draw(rt, "accops")
 	}
 	h.Ops = genHistory(rt, oc, 12)
 	if rapid.Bool().Draw(rt, "hasdir") {
